@@ -39,7 +39,14 @@ def _wrun(chunk):
         try:
             pkt = cls()
             for e in c["pattern"]:
-                setattr(pkt, e["n"], observe.build_value(mod, e["v"]) if e["lit"] else Any())
+                if e["lit"]:
+                    val = observe.build_value(mod, e["v"])
+                elif e.get("like", {"kind": "none"})["kind"] == "none":
+                    val = Any()
+                else:       # a placeholder with an expression of its own: Any(startswith= / endswith= / contains=)
+                    kw = {"starts": "startswith", "ends": "endswith", "contains": "contains"}[e["like"]["kind"]]
+                    val = Any(**{kw: bytes(e["like"]["b"])})
+                setattr(pkt, e["n"], val)
             rx = pkt.as_regular_expression()
         except Exception as ex:
             out.append({"clause": "C18_Builds", "detail": "building the expression raised %s: %s" % (type(ex).__name__, str(ex)[:200]), "case": c})
